@@ -207,76 +207,14 @@ fn c04_diff<'a, T: DiffableStr + ?Sized>(
     if per_op != all {
         return Err("iter_all_changes differs from the concatenation of iter_changes over ops".into());
     }
-    // the same sequence however the iterator is consumed: k calls of next(), then a fold-based
-    // consumer (fold / for_each / count / last), nth, skip, step_by
-    if all.len() <= 10 {
-        for k in 0..=all.len() {
-            let mut it = diff.iter_all_changes();
-            for _ in 0..k {
-                it.next();
+    // the same sequence however the iterators are consumed (nth / skip / step_by / take-then-rest /
+    // fold / count / last / peekable / find ...)
+    if all.len() <= 10 && modes_wanted(old.len() + new.len(), 5) {
+        consumption_modes(&|| "iter_all_changes".to_string(), || diff.iter_all_changes(), |c| (c.tag(), c.old_index(), c.new_index(), c.value().as_bytes().as_ptr() as usize, c.value().as_bytes().len()))?;
+        for (i, op) in diff.ops().iter().enumerate() {
+            if i < 2 || i + 1 == diff.ops().len() {
+                consumption_modes(&|| format!("iter_changes({:?})", op), || diff.iter_changes(op), |c| (c.tag(), c.old_index(), c.new_index(), c.value().as_bytes().as_ptr() as usize, c.value().as_bytes().len()))?;
             }
-            let rest = it.fold(Vec::new(), |mut v, c| {
-                v.push(c);
-                v
-            });
-            if rest[..] != all[k..] {
-                return Err(format!(
-                    "iter_all_changes: after {} next() calls, fold() yields {} changes, expected the remaining {}",
-                    k,
-                    rest.len(),
-                    all.len() - k
-                ));
-            }
-            let mut it = diff.iter_all_changes();
-            for _ in 0..k {
-                it.next();
-            }
-            if it.count() != all.len() - k {
-                return Err(format!("iter_all_changes: after {} next() calls, count() is wrong", k));
-            }
-            let mut it = diff.iter_all_changes();
-            for _ in 0..k {
-                it.next();
-            }
-            let mut seen = vec![];
-            it.for_each(|c| seen.push(c));
-            if seen[..] != all[k..] {
-                return Err(format!("iter_all_changes: after {} next() calls, for_each() yields a different sequence", k));
-            }
-            let mut it = diff.iter_all_changes();
-            let got = it.nth(k);
-            if got.as_ref() != all.get(k) {
-                return Err(format!("iter_all_changes: nth({}) gives {:?}, expected {:?}", k, got.map(|c| c.tag()), all.get(k).map(|c| c.tag())));
-            }
-            let tail: Vec<_> = it.collect();
-            let want_tail: &[_] = if k + 1 <= all.len() { &all[k + 1..] } else { &[] };
-            if tail[..] != *want_tail {
-                return Err(format!("iter_all_changes: after nth({}) the rest differs", k));
-            }
-            let mut pk = diff.iter_all_changes().peekable();
-            for _ in 0..k.min(2) {
-                pk.next();
-            }
-            let _ = pk.peek();
-            let rest: Vec<_> = pk.fold(Vec::new(), |mut v, c| {
-                v.push(c);
-                v
-            });
-            if rest[..] != all[k.min(2)..] {
-                return Err("iter_all_changes: peek() followed by fold() loses changes".into());
-            }
-        }
-        if diff.iter_all_changes().last().as_ref() != all.last() {
-            return Err("iter_all_changes: last() differs".into());
-        }
-        let stepped: Vec<_> = diff.iter_all_changes().step_by(2).collect();
-        let want: Vec<_> = all.iter().cloned().step_by(2).collect();
-        if stepped != want {
-            return Err("iter_all_changes: step_by(2) differs".into());
-        }
-        let (lo, hi) = diff.iter_all_changes().size_hint();
-        if lo > all.len() || hi.map_or(false, |h| h < all.len()) {
-            return Err(format!("iter_all_changes: size_hint ({}, {:?}) excludes the real length {}", lo, hi, all.len()));
         }
     }
     Ok((count, fp.0))
@@ -353,7 +291,7 @@ fn c17_diff<'a, T: DiffableStr + ?Sized>(
             ));
         }
         // (independent of the surrounding diff: the first two ops and the last one of each diff)
-        if op_no < 2 || op_no + 1 == diff.ops().len() {
+        if (op_no < 2 || op_no + 1 == diff.ops().len()) && modes_wanted(old.len() + new.len(), 5) {
             consumption_modes(
                 &|| format!("{:?}: TextDiffRemapper::iter_slices", op),
                 || remapper.iter_slices(op),
@@ -410,6 +348,25 @@ fn c17_diff<'a, T: DiffableStr + ?Sized>(
                 ChangeTag::Insert => rn.extend_from_slice(sb),
             }
             fp.add(*mtag as u64 + 4 * sb.len() as u64);
+        }
+    }
+    // the answers do not depend on the order in which ops are remapped, on the remapper having
+    // been used before, or on which constructor built it
+    {
+        let key = |it: Vec<(ChangeTag, &T)>| -> Vec<(ChangeTag, usize, usize)> {
+            it.into_iter().map(|(t, s)| (t, s.as_bytes().as_ptr() as usize, s.as_bytes().len())).collect()
+        };
+        let forward: Vec<Vec<(ChangeTag, usize, usize)>> = diff.ops().iter().map(|op| key(remapper.iter_slices(op).collect())).collect();
+        let other = TextDiffRemapper::new(diff.old_slices(), diff.new_slices(), old_t, new_t);
+        for (i, op) in diff.ops().iter().enumerate().rev() {
+            let again = key(remapper.iter_slices(op).collect());
+            let from_new = key(other.iter_slices(op).collect());
+            if again != forward[i] || from_new != forward[i] {
+                return Err(format!(
+                    "{:?}: remapping the ops in reverse order / through TextDiffRemapper::new gives different slices than the first pass",
+                    op
+                ));
+            }
         }
     }
     if ro != old || rn != new {
@@ -683,6 +640,7 @@ pub fn c04_run(cfg: &RunCfg) -> CheckReport {
         "every ordered pair of texts made of up to L letters of the listed alphabets (part 'valid': UTF-8 letters incl. LF, CR, combining mark, NBSP, regional indicator; part 'invalid': adds the byte letters FF, C3, E2 82; pairs already covered by the first part are skipped) x 6 constructors (lines, words, chars, unicode words, graphemes, slices of lines-and-newlines tokens) x 3 algorithms x {[u8], str when both texts are UTF-8}. One case = one text pair with all its configurations. Non-trivial: texts differ and some diff has >= 3 changes.",
     );
     rep.assume("oracle: byte-wise concatenation and index discipline; the tokenizers themselves are C06's business");
+    rep.assume("consumption modes (every iterator also consumed through nth/skip/step_by/take-then-rest/fold/count/last/peekable/find/zip/chain, size_hint a valid bound at every position): iter_all_changes and iter_changes of the first two and the last op; quick tier on text pairs of up to 5 bytes in total, thorough tier on every pair with at most 10 changes");
     run_pairs(cfg, &mut rep, c04_pair);
     rep
 }
@@ -762,6 +720,7 @@ pub fn c17_run(cfg: &RunCfg) -> CheckReport {
         "same space of text pairs as C04; for every pair: TextDiffRemapper over 6 constructors x 3 algorithms x {[u8], str} compared with DiffOp::iter_slices (tags, concatenation, pointer identity with the original text, reconstruction), and the one-call helpers utils::diff_chars/words/unicode_words/graphemes/lines/slices (reconstruction, no empty slice, no panic). Non-trivial: some diff yields >= 2 remapped slices.",
     );
     rep.assume("pointer identity is checked on the byte pointers of the returned slices against the original text buffers");
+    rep.assume("consumption modes: DiffOp::iter_slices and TextDiffRemapper::iter_slices of the first two and the last op of every diff; quick tier on text pairs of up to 5 bytes in total, thorough tier on every pair");
     run_pairs(cfg, &mut rep, c17_pair);
     if cfg.tier == Tier::Thorough && !rep.has_violation() {
         let avail = mem_available_gib();
